@@ -342,7 +342,12 @@ func (w *c19world) checkUndone(what string, ts []*c19target, fdBefore int) bool 
 
 func c19open(w *c19world) {
 	c, g := w.c, w.c.G
-	ts := w.draw(g.Draw(6))
+	nTargets := g.Draw(6)
+	if g.Chance(10) {
+		nTargets = 6 + g.Draw(5) // now and then a long list
+		c.R.Probe("Open with 6-10 targets")
+	}
+	ts := w.draw(nTargets)
 	var raws []string
 	allOK := true
 	for _, t := range ts {
